@@ -83,10 +83,19 @@ def case_history(ctx, case):
     shared_body = {'describe': lambda self: 'generated', 'kind': 'generated'}
     arm = [None]          # ('before' | 'after', exception class): while set, constructors of the 'picky' classes raise
 
+    ctor_seen = []
+    registry = []
+
+    def registering_hook(cls, **kw):
+        # the plug-in registry idiom: the hook does not chain to super().__init_subclass__() (object's is a no-op)
+        registry.append(cls)
+
+
     def picky_init(self, *a, **kw):
         if arm[0] and arm[0][0] == 'before':
             raise arm[0][1]('validation fails before the agent is initialised')
         super(type(self), self).__init__(*a, **kw) if False else core.Agent.__init__(self, *a, **kw)
+        ctor_seen.append(self.tag)           # what the rest of the user's constructor sees once the agent is initialised
         if arm[0] and arm[0][0] == 'after':
             raise arm[0][1]('validation fails after the agent was initialised')
 
@@ -101,6 +110,13 @@ def case_history(ctx, case):
         if rng.random() < 0.25 and not issubclass(base, core.Environment):
             K = type(name, (base,), {'__init__': picky_init})       # a user class that validates its arguments in its constructor
             picky.add(K)
+        elif rng.random() < 0.2:
+            # a class that keeps a registry of its subclasses through __init_subclass__ (its own, or a mixin's listed before the agent class)
+            if rng.random() < 0.5:
+                K = type(name, (base,), {'__init_subclass__': classmethod(registering_hook)})
+            else:
+                K = type(name, (type('RegistryMixin', (), {'__init_subclass__': classmethod(registering_hook)}), base), {})
+            ctx.count('classes_with_a_subclass_registry_hook')
         elif rng.random() < 0.35:
             K = type(name, (base,), shared_body)        # a family of generated classes built from ONE namespace dict (shared method bodies)
             ctx.count('classes_from_a_shared_namespace_dict')
@@ -200,6 +216,11 @@ def case_history(ctx, case):
                     K = rng.choice([c for c in classes if not issubclass(c, core.Environment)])
                 obj, explicit = make_instance(core, envs, K, model, f'i{len(instances)}', tag)
                 exp = tag if explicit else ref[K]['tag']
+                if K in picky:
+                    ctx.count('tags_read_inside_a_user_constructor')
+                    check(ctor_seen and ctor_seen[-1] == exp, f'inside the constructor of {K.__name__}, right after Agent.__init__, the new agent\'s tag read '
+                          f'{ctor_seen[-1] if ctor_seen else None!r}; it was created {"with tag " + repr(tag) if explicit else "without a tag"} and must have {exp!r}',
+                          trace=trace[-8:])
                 instances.append((obj, exp, {}))
                 if not issubclass(K, core.Environment) and rng.random() < 0.5:
                     model.environment.add_agent(obj)       # joining an environment does not change an agent's tag
